@@ -380,7 +380,7 @@ def x_witness(pid, fails, repo):
     if not any(getattr(f, 'unit', '') == 'X' for f in fails):
         return l3_witness(pid, fails, repo)
     # the replayed observable is the member list (names, order, wrappers) of the struct: it is a witness for the property-level clauses only
-    PROPERTY_CLAUSES = ('one-field-per-member-in-order', 'fields-are-the-members', 'base-members-then-own', 'derived-type-is-base-then-own',
+    PROPERTY_CLAUSES = ('element-is-alias-or-carries-its-anonymous-type', 'component-kind-follows-the-tag', 'one-field-per-member-in-order', 'fields-are-the-members', 'base-members-then-own', 'derived-type-is-base-then-own',
                         'content-then-attributes', 'flags-follow-the-declaration', 'anchor-lost', 'read-component-denotes-the-reference', 'base-lookup-finds-a-type')
     if not any(f.obligation.rsplit('#', 1)[-1] in PROPERTY_CLAUSES for f in fails if getattr(f, 'unit', '') == 'X'):
         return {'found': False, 'note': 'helper clause: no observable to replay'}
@@ -410,7 +410,7 @@ PROPS['C02'] = {
                   'A type error inside a shape contract is the disagreement. Per program, not for all schemas.',
     'level_note': 'The deciding step is rustc\'s type checker inside Verus, not an SMT obligation (reported as translation_validation, never as proof). '
                   'Trusted: the independent reader (vp/l3/model.py) and its PascalCase/snake_case rules, valid for the corpus vocabulary. '
-                  'Additionally the builtin table of field.rs::as_rust_type is PROVED for all strings (unit F, 27 rows + the named-type arm). The FLATTENING of content models is PROVED for all document trees (unit X: import_sequence_node_fields / import_choice_fields / read_sequence_node / ComplexProps::try_from_node of complex.rs against a contract-only roxmltree stand-in: one field per member, in document order, nested groups flattened in place, nothing dropped or added; termination by tree height). Not covered: schemas outside the corpus, derive-generated (de)serialisers, the occurrence-flag contract of DESIGN 4.2 on Field::try_from_node (only named by the uninterpreted relation is_field_of).',
+                  'Additionally the builtin table of field.rs::as_rust_type is PROVED for all strings (unit F, 27 rows + the named-type arm). The FLATTENING of content models is PROVED for all document trees (unit X: import_sequence_node_fields / import_choice_fields / read_sequence_node / ComplexProps::try_from_node of complex.rs, plus Field::try_from_node (occurrence flags from the property wording), ElementProps::try_from_node (anonymous-typed global elements) and RustNode::try_from_node (component kind, namespace), against a contract-only roxmltree stand-in: one field per member, in document order, nested groups flattened in place, nothing dropped or added; termination by tree height). Not covered: schemas outside the corpus, derive-generated (de)serialisers, the type of a member reached through ref= (find_node_by_xml_name: C09), the Vec/Option wrapper TEXT written by `impl WriteXml for Field` (format! output; observed at L3).',
     'technique': 'schema-derived ghost shape contracts type-checked by Verus against the code emitted by the current generator',
     'assumptions': ['independent schema reader implements DESIGN 2.1/2.2 faithfully', 'corpus names are in the vocabulary whose case conversion is unambiguous'],
 }
